@@ -67,6 +67,12 @@ def Ty.ortOk : Ty → Bool
   | .opt t => t.optFree
   | t => t.optFree
 
+/-- The types on which `wrap_feed` / `unwrap_feed` of the selected backend are inverse to each other. -/
+def feedOk : BackendSel → Ty → Bool
+  | .reference, t => t.refOk
+  | .onnxruntime, t => t.ortOk
+  | .none, _ => true
+
 /-- What a value looks like after it went to the backend representation and back under the type `t`:
     same containers, same arrays (`pid`) and shapes; every array carries exactly the declared element type and
     the nested PropValues are declared with the element type of `t`. (Specification side only.) -/
